@@ -1132,6 +1132,7 @@ def _list_decorators() -> Dict[str, Callable[[_FN], _FN]]:
                         self.insert(i + start, item)
                 else:
                     rng = list(range(start, stop, step))
+                    value = list(value)
                     if len(value) != len(rng):
                         raise ValueError(
                             "attempt to assign sequence of size %s to "
